@@ -19,7 +19,7 @@ def bumpTo (nm : Name) (v : Nat) (c : Scope) : Scope := { c with vars := c.vars.
 
 /-- utils.go:323-326: a local allocation bumps the counter of the innermost context and records the variable -/
 def addLocal (fc : Scope) (nm v : Name) : Scope :=
-  { vars := fc.vars.set nm (fc.vars.cnt nm + 1), locals := fc.locals ++ [v] }
+  { fc with vars := fc.vars.set nm (fc.vars.cnt nm + 1), locals := fc.locals ++ [v] }
 
 theorem newVariable_plain {name : Name} {pk : Bool} {fc : Scope} {parents chain' : List Scope} {v : Name}
     (h : newVariable false name pk (fc :: parents) = some (chain', v)) :
@@ -254,6 +254,25 @@ def opBase : Op → List Name
   | .push fn => [encodeIdent (dotsToMidDot fn)]
   | .pop => []
   | .req name _ => [encodeIdent name]
+  | .ptr _ name => [encodeIdent (name ++ ptrSuffix)]
+
+/-- remembering a pointer-variable name touches neither `allVars` nor `localVars` -/
+theorem inv_recordPtr (B : List Name) (v : Nat) (nm : Name) {c : List Scope} {p : List Name}
+    (hi : InvP B { chain := c, pkgNames := p }) : InvP B { chain := recordPtr v nm c, pkgNames := p } := by
+  cases c with
+  | nil => exact hi
+  | cons sc r =>
+    have hv : visible { chain := recordPtr v nm (sc :: r), pkgNames := p } = visible { chain := sc :: r, pkgNames := p } := by
+      simp [visible, recordPtr, chainLocals]
+    refine ⟨by rw [hv]; exact hi.nodup, ?_, ?_, by rw [hv]; exact hi.notres⟩
+    · have hok := hi.ok
+      exact ⟨fun w hw b k hb hwk => hok.1 w (by simpa [recordPtr, chainLocals] using hw) b k hb hwk,
+        fun q hq b => hok.2.1 q hq b, hok.2.2⟩
+    · intro s hs r' hr'
+      simp only [recordPtr, List.mem_cons] at hs
+      rcases hs with rfl | hs
+      · exact hi.res sc (by simp) r' hr'
+      · exact hi.res s (by simp [hs]) r' hr'
 
 theorem inv_step_plain (B : List Name) (hB : RenderInj B) {st st' : NState} {op : Op} (hi : InvP B st)
     (hop : ∀ b ∈ opBase op, b ∈ B) (h : stepOp false st op = some st') : InvP B st' := by
@@ -305,6 +324,24 @@ theorem inv_step_plain (B : List Name) (hB : RenderInj B) {st st' : NState} {op 
       simp [hn] at h
       subst h
       exact (inv_req_plain B hB hi (hop _ (by simp [opBase])) hn).1
+  | ptr v name =>
+    simp only [stepOp, varPtrName, Bool.false_eq_true, if_false] at h
+    cases hl : lookupPtr v st.chain with
+    | some nm =>
+      simp [hl] at h
+      subst h
+      exact hi
+    | none =>
+      simp only [hl] at h
+      cases hn : newVariable false (name ++ ptrSuffix) false st.chain with
+      | none => simp [hn] at h
+      | some p =>
+        obtain ⟨c, nm⟩ := p
+        simp [hn] at h
+        subst h
+        have := (inv_req_plain B hB hi (hop _ (by simp [opBase])) hn).1
+        simp only [Bool.false_eq_true, if_false] at this
+        exact inv_recordPtr B v nm this
 
 theorem inv_run_plain (B : List Name) (hB : RenderInj B) : ∀ (ops : List Op) (st st' : NState), InvP B st →
     (∀ op ∈ ops, ∀ b ∈ opBase op, b ∈ B) → runOps false st ops = some st' → InvP B st'
